@@ -29,7 +29,7 @@ contract('gnpy.core.elements.Transceiver.to_json', props=['C17'],
          ensures=[('identity', "result['uid'] == self.uid and result['type'] == 'Transceiver'")], use_at_calls=False, modifies=[])
 
 FIB_P = obj('<ns>', length=real(0), att_in=real(), con_in=real(), con_out=real(), loss_coef=real(), pmd_coef=real(),
-            pmd_coef_defined=boolean(), f_loss_ref=real())
+            pmd_coef_defined=boolean(), f_loss_ref=real(), lumped_losses=lst(dct(position=real(), loss=real()), dct(position=real(), loss=real())))
 contract('gnpy.core.elements.Fiber.to_json', name='gnpy.core.elements.Fiber.to_json[scalar loss coefficient]', props=['C17'],
          params={'self': obj('Fiber', uid=string(), type_variety=string(), params=FIB_P, metadata=META)},
          let={'p': "result['params']"},
@@ -39,8 +39,13 @@ contract('gnpy.core.elements.Fiber.to_json', name='gnpy.core.elements.Fiber.to_j
                   ('loss_coef_db_per_km', "p['loss_coef'] == round(self.params.loss_coef * 1e3, 6) and 'loss_coef_per_frequency' not in p"),
                   ('pmd_only_if_user_defined', "iff('pmd_coef' in p, self.params.pmd_coef_defined) and "
                                                "implies(self.params.pmd_coef_defined, p['pmd_coef'] == self.params.pmd_coef)"),
+                  ('lumped_losses_exported', "len(p['lumped_losses']) == 2 and all(p['lumped_losses'][k]['position'] == self.params.lumped_losses[k]['position'] "
+                                             "and p['lumped_losses'][k]['loss'] == self.params.lumped_losses[k]['loss'] for k in range(2))"),
                   ('identity', "result['uid'] == self.uid and result['type'] == 'Fiber' and result['type_variety'] == self.type_variety")],
          use_at_calls=False, modifies=[])
+contract('gnpy.core.elements.Fiber.to_json', name='gnpy.core.elements.Fiber.to_json[no lumped loss]', props=['C17'],
+         params={'self': obj('Fiber', uid=string(), type_variety=string(), params=extend(FIB_P, lumped_losses=lst()), metadata=META)},
+         ensures=[('no_empty_list_exported', "'lumped_losses' not in result['params']")], use_at_calls=False, modifies=[])
 
 def RD_EXP(pd_pow, pd_psd, pd_psw):
     return obj('Roadm', uid=string(), type_variety=string(), restrictions=dct(), metadata=META,
